@@ -238,6 +238,16 @@ def big_cases(max_L, max_L_2d, max_color, max_n, seed, n_random, hollow_L=6):
     from checks.c01_valid_code import case_sig
     have = {(c['cls'], tuple(c['size'])) for c in out}
     j = len(out)
+    # ... and the colour codes list logical strings whose length grows with
+    # the size: square sizes beyond the general bound
+    for cls in domain.COLOR_2D:
+        for L in range(max_color + 1, max_color + 3):
+            size = (L, L)
+            if domain.n_estimate(cls, size) > 800:
+                continue
+            j += 1
+            out.append(dict(domain.code_case(cls, size), kind='big', rseed=seed * 100003 + j,
+                            n_random=max(10, n_random // 4), light=True))
     for cls in ('HollowRhombicCode', 'HollowPlanar3DCode'):
         for size in domain.sizes(cls, hollow_L):
             c = domain.code_case(cls, size)
